@@ -292,10 +292,12 @@ def has_compile_diagnostics(text):
 
 
 def compile_rejected(r):
-    """The CLI refused the program at compile time: exit status 1 (no panic, no signal), no run-time error report,
-    and diagnostics (see has_compile_diagnostics).  The wording of the summary line is incidental."""
+    """The CLI refused the program at compile time: exit status 1 (no panic, no signal) and no run-time error report."""
     text = (r.out or "") + (r.err or "")
-    return r.cls == "fail" and BANNER not in text and MISMATCH not in text and has_compile_diagnostics(text)
+    # exit status 1 without a run-time error report: `run` / `compile` of a source file stopped before executing
+    # anything.  (Errors found while generating code are printed without a position; how the summary line is
+    # worded is incidental.  A run-time failure without a report is C17's subject, not a rejection.)
+    return r.cls == "fail" and BANNER not in text and MISMATCH not in text and "panicked at" not in text
 
 
 def first_line_with(text, needle):
